@@ -1,6 +1,6 @@
 """Props-level case generators and judges shared by C01-C05, C12, C13, C14."""
 import itertools, random
-from . import plevel_global
+from . import plevel_global, plevel_logic, plevel_arith
 
 # ---------------------------------------------------------------- parsing helpers
 def parse_doms(s):
@@ -114,11 +114,20 @@ def rand_view(rng, n, allow_const=True, depth=1):
 BASIC_KINDS = ["add", "sub", "leq", "lt", "geq", "gt", "eq", "sum", "lineq", "linle", "linne", "lineqr", "linler", "linner"]
 
 GLOBAL_KINDS = plevel_global.KINDS
+LOGIC_KINDS = plevel_logic.KINDS
+ALL_KINDS = BASIC_KINDS + GLOBAL_KINDS + LOGIC_KINDS + ["alldiff", "arith", "arith"]
 
 def rand_prop(rng, n, kinds=BASIC_KINDS, bools=()):
     k = rng.choice(kinds)
     if k in plevel_global.KINDS:
         return plevel_global.rand_prop(rng, n, k, rand_view)
+    if k in plevel_logic.KINDS:
+        return plevel_logic.rand_prop(rng, n, k, bools)
+    if k == "arith":
+        return plevel_arith.rand_prop(rng, n)
+    if k == "alldiff":
+        if n < 2: return "leq x0 x0"
+        return "alldiff " + ",".join("x%d" % i for i in rng.sample(range(n), rng.randint(2, n)))
     xv = lambda: "x%d" % rng.randrange(n)
     if k in ("add", "sub"):
         return "%s %s %s %s" % (k, rand_view(rng, n), rand_view(rng, n), xv())
